@@ -35,7 +35,9 @@ def add_reports(rng, ap):
     for r in reps:
         tail += f'taskreport {r["id"]} "{r["id"]}" {{ formats {", ".join(r["formats"])} columns {", ".join(r["cols"])}'
         if r["leaf"]:
-            tail += " leaftasksonly true"
+            tail += " leaftasksonly " + rng.choice(["true", "yes", "1", "TRUE", "Yes"])
+        elif rng.random() < 0.3:
+            tail += " leaftasksonly " + rng.choice(["false", "no", "0", "No"])
         if r["fmt"]:
             tail += f' timeformat "{r["fmt"]}"'
         if r.get("sc"):
